@@ -25,8 +25,17 @@ VALUE_KINDS = ["ListValue", "InlineMap", "LiteralZoneValue", "HolographicValue"]
 PLAIN_VALUE_KINDS = ["dict"]
 
 
-def isinstance_classes(fi: FuncInfo) -> set[str]:
+def isinstance_classes(fi: FuncInfo, _depth: int = 0, _seen: set | None = None) -> set[str]:
     out: set[str] = set()
+    # the dispatch may sit in a helper of the same module that is not itself one of the listed converters (an extracted
+    # `_convert_node`, a pair generator): its tests count for the caller, two levels deep
+    _seen = _seen if _seen is not None else set()
+    _seen.add(fi.qualname)
+    listed = {q for _m, q, _k in CONVERTERS}
+    if _depth < 2:
+        for c in walk_no_nested(fi.node):
+            if isinstance(c, ast.Call) and isinstance(c.func, ast.Name) and c.func.id not in listed and c.func.id not in _seen and fi.module.functions.get(c.func.id) is not None:
+                out |= isinstance_classes(fi.module.functions[c.func.id], _depth + 1, _seen)
     for n in walk_no_nested(fi.node):
         if isinstance(n, ast.Call) and isinstance(n.func, ast.Name) and n.func.id == "isinstance" and len(n.args) == 2:
             t = n.args[1]
@@ -265,6 +274,41 @@ def check(run: Run) -> None:
                 run.instance("R14.1", fi.module.loc(w), f"{fi.qualname}: walk over .{g.iter.attr} dispatches on {sorted(kinds)}", ok=not missing)
                 if missing:
                     run.violation("R14.1", fi.module, fi.qualname, f"walk over {ast.unparse(g.iter)} without {', '.join(missing)}", f"{fi.qualname} renders the elements of `{ast.unparse(g.iter)}` but only those of kind {sorted(kinds)}: {', '.join(missing)} content below this point is dropped from the rendering while the projection reports lossy=false", line=getattr(w, "lineno", fi.node.lineno))
+
+    # ---------------------------------------------------------------- R14.8
+    run.rule("R14.8", "no field is dropped because of its VALUE: in the JSON/Markdown converters nothing that came out of a value / node conversion is tested for None or truthiness to decide whether the key is kept (KEY::null, empty strings and empty lists are content)", 1)
+    conv_names = {q for _m, q, _k in CONVERTERS} | {f.name for f in run.project.mod("mcp.eject").functions.values() if f.name.startswith("_convert")}
+    n8 = 0
+    for fq in sorted(res.reachable_from(roots)):
+        fi = res.func_by_fqn(fq)
+        if not (fi.module.name.endswith("mcp.eject") or fi.module.name.endswith("cli.main")):
+            continue
+        # names that hold a converted value: bound from a converter call, directly or as a tuple element of a generator of such
+        holds: set[str] = set()
+        for x in ast.walk(fi.node):
+            if isinstance(x, ast.Assign) and len(x.targets) == 1 and isinstance(x.targets[0], ast.Name) and isinstance(x.value, ast.Call) and isinstance(x.value.func, ast.Name) and x.value.func.id in conv_names:
+                holds.add(x.targets[0].id)
+            if isinstance(x, ast.comprehension) and isinstance(x.target, ast.Tuple):
+                src = x.iter
+                if isinstance(src, ast.Name):
+                    ds = [a.value for a in walk_no_nested(fi.node) if isinstance(a, ast.Assign) and any(is_name(t, src.id) for t in a.targets)]
+                    src = ds[0] if len(ds) == 1 else src
+                if isinstance(src, (ast.GeneratorExp, ast.ListComp)) and isinstance(src.elt, ast.Tuple) and len(src.elt.elts) == len(x.target.elts):
+                    for t, e in zip(x.target.elts, src.elt.elts):
+                        if isinstance(t, ast.Name) and isinstance(e, ast.Call) and isinstance(e.func, ast.Name) and e.func.id in conv_names:
+                            holds.add(t.id)
+        tests = []
+        for x in ast.walk(fi.node):
+            conds = list(x.ifs) if isinstance(x, ast.comprehension) else [x.test] if isinstance(x, (ast.If, ast.IfExp)) else []
+            for c in conds:
+                for y in ast.walk(c):
+                    bad = (isinstance(y, ast.Compare) and len(y.ops) == 1 and isinstance(y.ops[0], (ast.Is, ast.IsNot, ast.Eq, ast.NotEq)) and isinstance(y.left, ast.Name) and y.left.id in holds and isinstance(y.comparators[0], ast.Constant) and y.comparators[0].value is None) or (y is c and isinstance(y, ast.Name) and y.id in holds) or (isinstance(y, ast.UnaryOp) and isinstance(y.op, ast.Not) and isinstance(y.operand, ast.Name) and y.operand.id in holds)
+                    if bad:
+                        tests.append(c)
+        n8 += 1
+        run.instance("R14.8", fi.module.loc(fi.node), f"{fi.qualname}: {len(holds)} local(s) hold converted values; none is tested for None / truthiness", ok=not tests, nontrivial=bool(holds))
+        for c in tests:
+            run.violation("R14.8", fi.module, fi.qualname, c, f"`{ast.unparse(c)[:70]}` decides on the CONVERTED value whether a key is kept: a field whose value is null (or empty) is dropped from this format while the projection reports lossy=false and the other formats keep it")
 
     # ---------------------------------------------------------------- R14.4
     for a, b in SIBLINGS:
